@@ -1,2 +1,66 @@
-(* C14 placeholder *)
-From MPB Require Import Base.
+(* C14 — Cancellation and Shutdown stop everything, once, wherever they land.
+   Safety statements over the bar actor (BarState.v), the decorator subscription
+   (Listen.v) and the container acceptor (Container.step).
+   Not provable in this model: that Wait RETURNS after a cancellation is progress of the
+   Go run-time (selects being taken); the harness decides it on every trace with a hang
+   timeout and the c14 monitor. *)
+From MPB Require Import Base BaseProofs BarState BarStateProofs Container ContainerProofs ContainerLife Listen.
+
+(* a bar ended by cancellation alone reports aborted, not completed; IsRunning is false *)
+Theorem C14_cancelled_bar_is_aborted : forall s s',
+  bev_step s Exit = Some s' -> completed s = false -> aborted s' = true /\ completed s' = false.
+Proof. exact cancelled_is_aborted. Qed.
+Print Assumptions C14_cancelled_bar_is_aborted.
+
+Theorem C14_completed_bar_stays_completed : forall s s',
+  bev_step s Exit = Some s' -> completed s = true -> completed s' = true /\ aborted s' = false.
+Proof. exact completed_survives_exit. Qed.
+Print Assumptions C14_completed_bar_stays_completed.
+
+(* the actor exits at most once, whatever lands in between: one round of shutdown notifications *)
+Theorem C14_bar_exits_once : forall s s1 evs s2,
+  bev_step s Exit = Some s1 -> brun s1 evs = Some s2 -> bev_step s2 Exit = None.
+Proof. exact exit_once. Qed.
+Print Assumptions C14_bar_exits_once.
+
+(* that round calls every shutdown listener of both decorator groups exactly once,
+   under any number of wrappers *)
+Theorem C14_each_listener_once : forall pre app, on_exit pre app = listening pre ++ listening app.
+Proof. exact on_exit_each_listener_once. Qed.
+Print Assumptions C14_each_listener_once.
+
+Theorem C14_listener_under_wrappers : forall n id e,
+  on_exit [wrap_n n (WLeaf id true e)] [] = [id] /\ on_exit [] [wrap_n n (WLeaf id true e)] = [id].
+Proof. exact listener_under_wrappers_notified. Qed.
+Print Assumptions C14_listener_under_wrappers.
+
+(* the heap manager is ended once, and the notifier's single value lists exactly the heap *)
+Theorem C14_heap_manager_ends_once : forall s hl s1 evs s2 hl',
+  step s (HM_END hl) = Some s1 -> run s1 evs = Some s2 -> step s2 (HM_END hl') = None.
+Proof. exact end_once. Qed.
+Print Assumptions C14_heap_manager_ends_once.
+
+Theorem C14_notifier_lists_the_heap : forall s bs s',
+  step s (NOTIFY bs) = Some s' ->
+  ended s = true /\ length bs = length (heap s) /\ (forall b, In b bs <-> In b (heap s)).
+Proof.
+  intros s bs s'. unfold step. destruct (_ && _) eqn:G; [|discriminate]. intros _.
+  apply andb_prop in G as [G G4]. apply andb_prop in G as [G G3]. apply andb_prop in G as [G1 G2].
+  apply Z.eqb_eq in G2. rewrite forallb_forall in G3, G4. repeat split; auto; [lia| |].
+  - intros Hb. apply memZ_In. auto.
+  - intros Hb. apply memZ_In. auto.
+Qed.
+Print Assumptions C14_notifier_lists_the_heap.
+
+(* cancellation is sticky *)
+Theorem C14_cancelled_stays : forall s e s', step s e = Some s' -> cancelled s = true -> cancelled s' = true.
+Proof. exact cancelled_mono. Qed.
+Print Assumptions C14_cancelled_stays.
+
+Example C14_nonvacuous :
+  exists s, run (init_cst false true false)
+    [CT_OP; CT_ADD 0 0 0 5 None None false false true 0 false; HM_PUSH 0 true 0 false 0;
+     CL_CANCEL; BAR_EXIT 0 0 5 true; CT_DONE; HM_STATE 1 true 0; HM_END 1; CT_EXIT;
+     NOTIFY [0]; FINAL 0 0 false true false] = Some s
+  /\ ct_exited s = true.
+Proof. eexists. vm_compute. repeat split. Qed.
